@@ -18,6 +18,14 @@ CHECKS = {
             "Trusted: spec.conforms / refcons.ref_constraint (documentation-derived). Nothing is claimed about values, "
             "nesting or declarations outside the alphabets (small-scope hypothesis).",
             "DESIGN.md §3 C01"),
+    "C02": ("bounded-exhaustive enumeration of (constraint set, value of the source type) against an independent "
+            "reference semantics of every documented constraint",
+            "All single constraints and all legal pairs (triples in the thorough tier) over explicit bound alphabets for "
+            "13 source types, each evaluated on every value of a window around every bound (ints, k/4 floats with "
+            "nextafter neighbours, m*10^e Decimals, all strings over a 5-letter alphabet up to length 4, all small "
+            "lists/tuples/sets/dicts): parse verdict == reference verdict, result == input, isinstance == verdict.",
+            "Trusted: utmc/refcons.py (documentation-derived); documentation-undecided cases are skipped and counted.",
+            "DESIGN.md §3 C02"),
     "C04": ("bounded-exhaustive product-space exploration with a deterministic step-budget watchdog; oracle: outcome is "
             "a value or an instance of utype.exc.ParseError",
             "Every constrained/logical/generic/data-class declaration and function context is called with the full "
